@@ -103,6 +103,8 @@ def stepNormal (st : State) (toks : List String) : Option (State × String) :=
   let n := st.n
   let ret (r : Node × String) : Option (State × String) := some ({ st with n := r.1 }, r.2)
   match toks with
+  | ["tag", name] =>
+    if name.toList.all (fun c => c.isAlphanum || c = '-') then ret (n, "ok") else none
   | ["fill", k] => do
     let k ← k.toNat?
     if n.s.up && !n.tracked && k > 0 && k ≤ 20000 then ret (n, "ok") else none
@@ -124,10 +126,18 @@ def stepNormal (st : State) (toks : List String) : Option (State × String) :=
       let n' := quiesce n
       ret (n', s!"ok last={n'.s.lastId}")
     else none
-  | ["trip"] => if n.s.up && !n.s.tripped then ret (runN n [.trip], "ok") else none
+  | ["trip"] =>
+    -- (the matcher, if it is in its loop, notices the tripwire: the harness waits for that)
+    if n.s.up && !n.s.tripped then ret (runN n [.trip, .ack], "ok") else none
   | ["wind"] => if n.s.up && n.s.tripped && !n.wound then ret (doWind n) else none
   | ["exit"] => if n.s.up && n.wound then ret (doExit n, "ok") else none
   | ["graceful"] =>
+    if n.s.up && !n.s.tripped then
+      let (n1, out) := doWind (runN n [.trip, .ack])
+      ret (doExit n1, out)
+    else none
+  | ["graceful", "fast"] =>
+    -- `drop_handles()` may reach the matcher before it has looked at the tripwire
     if n.s.up && !n.s.tripped then
       let (n1, out) := doWind (runN n [.trip])
       ret (doExit n1, out)
